@@ -23,6 +23,9 @@ func finalSize(h *rtwire.Hist) int {
 	cnt := map[int]int{}
 	n := 0
 	for _, o := range h.Ops {
+		if o.Qry {
+			continue
+		}
 		if o.Del {
 			if cnt[o.ID] > 0 {
 				cnt[o.ID]--
@@ -77,6 +80,221 @@ func addQueries(r *vproto.Rng, h *rtwire.Hist, nq int) {
 	}
 }
 
+// askAll appends one query op per query that is not yet referenced by the history
+func askAll(h *rtwire.Hist) {
+	used := map[int]bool{}
+	for _, o := range h.Ops {
+		if o.Qry {
+			used[o.ID] = true
+		}
+	}
+	for j := range h.KQs {
+		if !used[j] {
+			h.Ops = append(h.Ops, rtwire.Op{Qry: true, ID: j})
+		}
+	}
+}
+
+func boxDist2(x, y float64, b rtwire.Box) float64 {
+	dx, dy := 0.0, 0.0
+	if x < b.MinX {
+		dx = b.MinX - x
+	} else if x > b.MaxX {
+		dx = x - b.MaxX
+	}
+	if y < b.MinY {
+		dy = b.MinY - y
+	} else if y > b.MaxY {
+		dy = y - b.MaxY
+	}
+	return dx*dx + dy*dy
+}
+
+// state of a history under construction (multiset of stored ids)
+type st struct {
+	h       *rtwire.Hist
+	present []int
+}
+
+func (s *st) ins(id int) {
+	s.h.Ops = append(s.h.Ops, rtwire.Op{ID: id})
+	s.present = append(s.present, id)
+}
+func (s *st) del(id int) {
+	s.h.Ops = append(s.h.Ops, rtwire.Op{Del: true, ID: id})
+	for i, p := range s.present {
+		if p == id {
+			s.present = append(s.present[:i], s.present[i+1:]...)
+			return
+		}
+	}
+}
+func (s *st) ask(x, y float64, k int) int {
+	s.h.KQs = append(s.h.KQs, rtwire.KQ{X: x, Y: y, K: k})
+	j := len(s.h.KQs) - 1
+	s.h.Ops = append(s.h.Ops, rtwire.Op{Qry: true, ID: j})
+	return j
+}
+func (s *st) again(j int) { s.h.Ops = append(s.h.Ops, rtwire.Op{Qry: true, ID: j}) }
+func (s *st) has(id int) bool {
+	for _, p := range s.present {
+		if p == id {
+			return true
+		}
+	}
+	return false
+}
+func (s *st) nearest(x, y float64, stored bool) int { // nearest stored / not stored pool object
+	best, bd := -1, 0.0
+	for id, b := range s.h.Pool {
+		if s.has(id) != stored {
+			continue
+		}
+		if d := boxDist2(x, y, b); best < 0 || d < bd {
+			best, bd = id, d
+		}
+	}
+	return best
+}
+
+// interleaved: the identical query repeated across mutations that restore Size (delete one of
+// the answers + insert a nearer object, and the other way round), repeated with no change, with
+// NearestNeighbor and other queries in between or not.
+func genInterleaved(r *vproto.Rng, par [2]int, kind string, i int) *rtwire.Hist {
+	size := 6 + r.Intn(24)
+	h := rtwire.GenHist(r, 3, par, kind, size, 1)
+	pool := h.Pool
+	h.Ops = nil
+	h.KQs = []rtwire.KQ{}
+	h.Class = fmt.Sprintf("nn-interleaved-%s-m%dM%d", kind, par[0], par[1])
+	s := &st{h: h}
+	n := len(pool) * 2 / 3
+	for id := 0; id < n; id++ {
+		s.ins(id)
+	}
+	sc := h.Scale
+	if sc == 0 {
+		sc = 1
+	}
+	for round := 0; round < 4; round++ {
+		o := pool[r.Intn(len(pool))]
+		x, y := o.MinX+float64(r.Range(-3, 3))*sc, o.MaxY+float64(r.Range(-3, 3))*sc
+		k := []int{1, 2, 3, 3, len(s.present), r.Range(1, len(s.present)+2)}[r.Intn(6)]
+		j := s.ask(x, y, k)
+		switch (i + round) % 5 {
+		case 0: // delete the nearest answer, insert the nearest absent object, ask again
+			if d := s.nearest(x, y, true); d >= 0 {
+				s.del(d)
+			}
+			if a := s.nearest(x, y, false); a >= 0 {
+				s.ins(a)
+			}
+			s.again(j)
+		case 1: // insert first, then delete
+			if a := s.nearest(x, y, false); a >= 0 {
+				s.ins(a)
+			}
+			if d := s.nearest(x, y, true); d >= 0 {
+				s.del(d)
+			}
+			s.again(j)
+		case 2: // no change, NearestNeighbor in between
+			s.ask(x, y, 0)
+			s.again(j)
+			s.again(j)
+		case 3: // two deletes and two inserts of random objects
+			for c := 0; c < 2 && len(s.present) > 1; c++ {
+				s.del(s.present[r.Intn(len(s.present))])
+			}
+			for c := 0; c < 2; c++ {
+				if a := s.nearest(float64(r.Range(0, 100))*sc, float64(r.Range(0, 100))*sc, false); a >= 0 {
+					s.ins(a)
+				}
+			}
+			s.again(j)
+		default: // a single mutation, and a different k in between
+			if d := s.nearest(x, y, true); d >= 0 && len(s.present) > 1 {
+				s.del(d)
+			}
+			s.again(j)
+			s.ask(x, y, k+1)
+			s.again(j)
+		}
+		s.ask(x, y, 0)
+	}
+	return h
+}
+
+// sweep: small-branching trees of height >= 3, deletes that do not underflow, and after every
+// delete a sweep of NearestNeighbor / k = 1 queries on a half-unit grid around the data.
+func genSweep(r *vproto.Rng, par [2]int, kind string) *rtwire.Hist {
+	n := 9 + r.Intn(22)
+	h := &rtwire.Hist{Min: par[0], Max: par[1], Kind: kind, Queries: []rtwire.Box{{MinX: 0, MinY: 0, MaxX: 1, MaxY: 1}}, KQs: []rtwire.KQ{}}
+	h.Class = fmt.Sprintf("nn-sweep-%s-m%dM%d", kind, par[0], par[1])
+	seen := map[[2]int]bool{}
+	for len(h.Pool) < n+3 {
+		x, y := r.Range(0, 20), r.Range(0, 20)
+		if seen[[2]int{x, y}] {
+			continue
+		}
+		seen[[2]int{x, y}] = true
+		b := rtwire.Box{MinX: float64(x), MinY: float64(y), MaxX: float64(x + 1), MaxY: float64(y + 1)}
+		if kind == "pt" {
+			b.MaxX, b.MaxY = b.MinX, b.MinY
+		}
+		h.Pool = append(h.Pool, b)
+	}
+	s := &st{h: h}
+	for id := 0; id < n; id++ {
+		s.ins(id)
+	}
+	// side >= 0: half of the points lie in the strip along that side of the data (where a stale,
+	// oversized ancestor box would still reach)
+	side := -1
+	sweep := func(m int) {
+		for c := 0; c < m; c++ {
+			x, y := float64(r.Range(-2, 44))/2, float64(r.Range(-2, 44))/2
+			if side >= 0 && c%2 == 0 {
+				a := float64(r.Range(-6, 4)) / 2
+				switch side {
+				case 0:
+					x = 21 + a
+				case 1:
+					x = -a
+				case 2:
+					y = 21 + a
+				default:
+					y = -a
+				}
+			}
+			s.ask(x, y, (c/2)%2) // NearestNeighbor and NearestNeighbors(1)
+		}
+	}
+	sweep(6)
+	for round := 0; round < 4 && len(s.present) > 3; round++ {
+		// prefer an object on the hull of the data (it alone defines an edge of ancestor boxes)
+		best, bv := -1, 0.0
+		dir := r.Intn(4)
+		for _, id := range s.present {
+			b := h.Pool[id]
+			v := []float64{b.MaxX, -b.MinX, b.MaxY, -b.MinY}[dir]
+			if best < 0 || v > bv {
+				best, bv = id, v
+			}
+		}
+		side = dir
+		if r.Chance(0.25) {
+			best = s.present[r.Intn(len(s.present))]
+			side = -1
+		}
+		s.del(best)
+		sweep(24)
+	}
+	s.ins(n)
+	sweep(6)
+	return h
+}
+
 func gen(seed uint64, tier string) []*rtwire.Hist {
 	r := vproto.NewRng(seed ^ 0xC12)
 	var hs []*rtwire.Hist
@@ -116,6 +334,58 @@ func gen(seed uint64, tier string) []*rtwire.Hist {
 		h.KQs = append(h.KQs, rtwire.KQ{X: 0.25, Y: 0.125, K: 2}, rtwire.KQ{X: 0.25, Y: 0.25, K: 3}, rtwire.KQ{X: 0.375, Y: 0.25, K: 6})
 		hs = append(hs, h)
 	}
+	// the documented query/delete/insert/identical-query sequence on six unit squares
+	{
+		corners := [][2]float64{{0, 0}, {1, 1}, {3, 1}, {5, 2}, {2, 4}, {6, 5}, {4, 6}}
+		var pool []rtwire.Box
+		for _, c := range corners {
+			pool = append(pool, rtwire.Box{MinX: c[0], MinY: c[1], MaxX: c[0] + 1, MaxY: c[1] + 1})
+		}
+		h := &rtwire.Hist{Class: "nn-corpus-repeat-after-delete-insert", Min: 3, Max: 3, Kind: "bnd", Pool: pool,
+			Queries: []rtwire.Box{{MinX: 0, MinY: 0, MaxX: 1, MaxY: 1}}, KQs: []rtwire.KQ{}}
+		s := &st{h: h}
+		for id := 1; id < len(pool); id++ {
+			s.ins(id)
+		}
+		j := s.ask(0.5, 0.5, 3)
+		s.again(j)
+		s.del(1)
+		s.ins(0)
+		s.again(j)
+		s.ask(0.5, 0.5, 0)
+		s.del(0)
+		s.again(j)
+		s.ins(1)
+		s.again(j)
+		hs = append(hs, h)
+	}
+	// height 3 with (2,3), delete the object that alone defines an ancestor's edge, sweep
+	{
+		corners := [][2]float64{{11, 7}, {2, 8}, {7, 13}, {1, 9}, {19, 8}, {0, 18}, {13, 4}, {8, 6}, {0, 3}}
+		var pool []rtwire.Box
+		for _, c := range corners {
+			pool = append(pool, rtwire.Box{MinX: c[0], MinY: c[1], MaxX: c[0] + 1, MaxY: c[1] + 1})
+		}
+		h := &rtwire.Hist{Class: "nn-corpus-sweep-after-delete", Min: 2, Max: 3, Kind: "bnd", Pool: pool,
+			Queries: []rtwire.Box{{MinX: 0, MinY: 0, MaxX: 1, MaxY: 1}}, KQs: []rtwire.KQ{}}
+		s := &st{h: h}
+		for id := range pool {
+			s.ins(id)
+		}
+		s.ask(19.5, 16.5, 0)
+		s.del(4)
+		s.ask(19.5, 16.5, 0)
+		s.ask(19.5, 16.5, 1)
+		for x := 15.0; x <= 21; x += 1.5 {
+			for y := 10.0; y <= 21; y += 1.5 {
+				s.ask(x, y, 0)
+			}
+		}
+		hs = append(hs, h)
+	}
+	for _, h := range hs {
+		askAll(h)
+	}
 	n := 500
 	if tier == "thorough" {
 		n = 6000
@@ -125,6 +395,14 @@ func gen(seed uint64, tier string) []*rtwire.Hist {
 		kind := rtwire.Kinds[(i/len(rtwire.Params))%len(rtwire.Kinds)]
 		var h *rtwire.Hist
 		size := 6 + r.Intn(34)
+		if i%4 == 1 {
+			hs = append(hs, genInterleaved(r, par, kind, i))
+			continue
+		}
+		if i%4 == 3 {
+			hs = append(hs, genSweep(r, [][2]int{{2, 3}, {2, 4}, {2, 3}, {2, 5}}[(i/4)%4], kind))
+			continue
+		}
 		switch i % 6 {
 		case 5: // duplicates of few objects, inserted and deleted
 			h = rtwire.GenHist(r, 4, par, kind, size, 1)
@@ -144,6 +422,7 @@ func gen(seed uint64, tier string) []*rtwire.Hist {
 			h.Class = fmt.Sprintf("nn-boundary-%s-m%dM%d", kind, par[0], par[1])
 		}
 		addQueries(r, h, 14)
+		askAll(h)
 		hs = append(hs, h)
 	}
 	return hs
@@ -165,23 +444,22 @@ func runHist(line string, out *bufio.Writer) {
 	}
 	objs, ids := h.Objects()
 	tree := rtree.NewTree(h.Min, h.Max)
-	msg := vproto.Safe(func() {
-		for _, op := range h.Ops {
-			if op.Del {
-				tree.Delete(objs[op.ID])
-			} else {
-				tree.Insert(objs[op.ID])
+	for i, op := range h.Ops {
+		if !op.Qry {
+			msg := vproto.Safe(func() {
+				if op.Del {
+					tree.Delete(objs[op.ID])
+				} else {
+					tree.Insert(objs[op.ID])
+				}
+			})
+			if msg != "" {
+				fmt.Fprintf(&b, " | oppanic %d %s", i+1, msg)
+				return
 			}
+			continue
 		}
-	})
-	if msg != "" {
-		b.WriteString(" panic " + msg)
-		return
-	}
-	root, _, _ := tree.VerifWalk(70)
-	fmt.Fprintf(&b, " T %d %d", tree.Size(), tree.Depth())
-	rtwire.Dump(&b, root, ids)
-	for _, q := range h.KQs {
+		q := h.KQs[op.ID]
 		p := geom.Point{X: q.X, Y: q.Y}
 		if q.K == 0 {
 			var res geom.Geom
@@ -202,6 +480,9 @@ func runHist(line string, out *bufio.Writer) {
 			}
 		}
 	}
+	root, _, _ := tree.VerifWalk(70)
+	fmt.Fprintf(&b, " | T %d %d", tree.Size(), tree.Depth())
+	rtwire.Dump(&b, root, ids)
 }
 
 func main() {
